@@ -130,7 +130,32 @@ class Ctx:
                 return k
         return None
 
+    def _coverage_guard(self):
+        """a rule that passes because it found nothing to look at has decided nothing: when a rule produces fewer than half
+        of the instances it produces on the tree the rules were written against (sa/expected_instances.json), and has not
+        said why (no INCONCLUSIVE / VIOLATED instance of that rule), the run is not a verdict"""
+        try:
+            exp = json.load(open(os.path.join(VERIF, "sa", "expected_instances.json"))).get(self.prop, {})
+        except (OSError, ValueError):
+            return
+        got, explained = {}, set()
+        for i in self.instances:
+            got[i.rule] = got.get(i.rule, 0) + 1
+            if i.outcome in (INCONCLUSIVE, VIOLATED):
+                explained.add(i.rule)
+        if any(i.outcome == VIOLATED for i in self.instances):
+            return          # a reported violation usually ends its rule early: fewer instances are expected then
+        for rule, n in sorted(exp.items()):
+            if rule in explained:
+                continue
+            if got.get(rule, 0) * 2 < n:
+                self.instances.append(Instance(rule, "coverage", "", INCONCLUSIVE,
+                                               "rule %s produced %d instance(s); %d are expected: the code it covers was not found "
+                                               "(renamed, moved or removed), nothing was decided about it" % (rule, got.get(rule, 0), n), "coverage:" + rule))
+
     def finish(self, error=None, replay=None):
+        if error is None:
+            self._coverage_guard()
         viol, incon, known_hits = [], [], []
         for i in self.instances:
             if i.outcome == VIOLATED:
